@@ -9,7 +9,10 @@ CHECK = Check(
         # the REAL ow-sim binary (tag verif, built from the tree under test against the HDF5 stub) on generated graphs;
         # output datasets compared bit for bit with `owsim` executed by the compiled Lean driver (which also reports
         # whether `refSem` and the latest-writer schedule agree on that line)
-        Family("SIM", rtol=1e-9, atol_scale=1e-12, args=["n=300", "par=8"]),   # bit-exact kernels + the pow-using Gully pair (name-containing model names)
+        # bit-exact kernels + the pow-using Gully pair (name-containing model names); in about a third of the graphs a
+        # DIMENSIONED model (RatingCurvePartition: every node its own table length, the file's parameter table padded to
+        # the model-wide maximum, most generations below that maximum) — only bit-exact kernels in those graphs
+        Family("SIM", rtol=1e-9, atol_scale=1e-12, args=["n=300", "par=8"]),
         # hook traces of those executions (+ mutants + random walks) through the Go acceptor and through
         # OW.Sim.Writer.step in the Lean driver
         Family("SIMTRACE", rtol=None, args=["walks=150"]),
@@ -27,6 +30,12 @@ CHECK = Check(
         "Go memory model (channel send happens-before the matching receive), Go scheduler fairness for termination",
         "kernels enter the theorems as an arbitrary function; per-cell independence of a vectorised Run is C04; the "
         "kernels used for correspondence are the bit-exact ones (+ - * / and comparisons only)",
+        "table-valued (dimensioned) parameters: the model graph gives every node its own PACKED parameter column "
+        "([nPts, inputAmount[nPts], proportion[nPts]]); that ow-sim recovers exactly this column from the parameter table "
+        "of the file (padded to the model-wide maximum of each dimension: initDimensions over the whole table, "
+        "ApplyParameters, per-cell slicing by the cell's own nPts) is tied by correspondence only, on graphs with "
+        "RatingCurvePartition nodes of different table lengths spread over several generations (the wrapper's layout "
+        "itself is C04 / OW/Sim/WrapperNdTables.lean)",
         "hook trace order: verifTrace appends under a mutex; send events are logged before the blocking send, receive "
         "events after the receive",
     ],
@@ -36,7 +45,10 @@ CHECK = Check(
         "columns of a link agree with generation start + node-within-generation",
         "an output file is given and written by the process itself (the -outputs split-writer sub-process, -writer mode "
         "and separate -parameters/-initial-states/-input-timeseries/-final-states files are outside the model)",
-        "all stored input series have the same length T; a kernel that panics kills the process (out of scope)",
+        "all stored input series have the same length T; a kernel that panics kills the process (out of scope: the "
+        "generated rating tables cover every inflow that reaches their node, no NaN gaps in graphs with such a node)",
+        "every model type with dimensioned parameters has at least one node (ow-sim panics at start-up on an empty "
+        "parameter table of such a model: FindDimensions → Maximum() of an empty array; observation, `table-empty=1`)",
     ],
 )
 
